@@ -49,6 +49,12 @@ CHECKS = {
     'C06': ('explicit-state enumeration of the AFM fragment, deviation-bounded WORD names and attribute declarations (ranges, enumerations, default/null), all constraint trees of depth<=2 without XOR plus depth-3 spines; write/read cycles through the real AFM writer and ANTLR reader',
             'Every state up to the bound round-trips through AFMWriter/AFMReader; names, tree, attributes (ranges as ints) and one-to-one constraint equivalence (which is what catches lost parentheses) and generation fix-points are checked.',
             'Attribute elements/default/null are compared as token text, the representation the AFM reader defines.', '3 C06'),
+    'C10': ('explicit-state enumeration of the structure space x constraint trees; each SPLOT / propositional export is executed as a program by an independent interpreter over all 2^n selections and compared with brute-force configurations',
+            'Every Boolean model up to the bound (six relation kinds, several relations per parent, constraint trees over all eight operators) is exported; an independent SXFM interpreter and an independent .exp interpreter enumerate the satisfying selections of the export, which must equal the model\'s configurations; missing features and uninterpretable output are violations.',
+            'Trusts vmc.lang.sxfm / vmc.lang.plexp (golden self-tests at start-up) and the stated operator precedence; XOR is accepted as a connective of the propositional format.', '3 C10'),
+    'C11': ('explicit-state enumeration of the Clafer fragment x constraint trees and deviation-bounded attributes/names; the export is executed by an independent interpreter of the emitted Clafer subset over all 2^n selections',
+            'Every model of the fragment up to the bound is exported; the interpreter enumerates the instances of the feature hierarchy under Clafer group/cardinality semantics, which must equal the model\'s configurations; identifier consistency of features and attributes, attribute types and operator translation are checked on every state.',
+            'Trusts vmc.lang.clafer (golden self-test); reserved words / leading digits as names are outside the property and not generated.', '3 C11'),
 }
 
 REASON_TODO = 'check not built yet in this session; planned in DESIGN.md section 3 (model checking applies)'
